@@ -149,3 +149,102 @@ impl State {
         ensures *final(self) == (State { deadlines: final(self).deadlines, ..*old(self) })
     { unimplemented!() }
 }
+
+// ======================= termination side (terminate_sectors closure): everything deadline-level is opaque =======================
+// The ledger statement about this closure is a FRAME (no money total, no table is written): the deadline / partition machinery it drives
+// (C04's subject) is replaced by contract-free stubs that can only touch their own receiver.
+/// deadline_state.rs Deadline (partitions AMT root, memoised totals): opaque here
+#[verifier::external_body]
+pub struct Deadline { inner: Box<u8> }
+/// sector_map.rs PartitionSectorMap / DeadlineSectorMap (BTreeMaps of the user's request): opaque
+#[verifier::external_body]
+pub struct PartitionSectorMap { inner: Box<u8> }
+#[verifier::external_body]
+pub struct DeadlineSectorMap { inner: Box<u8> }
+impl DeadlineSectorMap {
+    /// `iter()` = BTreeMap iteration mapped to (deadline index, partition map): modelled as the Vec of the pairs (shared references: the only use
+    /// of the partition map is to hand it to Deadline::terminate_sectors)
+    #[verifier::external_body]
+    pub fn iter(&mut self) -> (r: Vec<(u64, &PartitionSectorMap)>)
+        ensures r@.len() == old(self).keys().len(), forall|i: int| 0 <= i < r@.len() ==> (#[trigger] r@[i]).0 == old(self).keys()[i], final(self).keys() == old(self).keys()
+    { unimplemented!() }
+    /// the deadline indices named by the request, in increasing order
+    pub uninterp spec fn keys(&self) -> Seq<u64>;
+}
+impl Deadlines {
+    #[verifier::external_body]
+    pub fn load_deadline<BS: Blockstore>(&self, store: &BS, idx: u64) -> (r: Result<Deadline, ActorError>) { unimplemented!() }
+    #[verifier::external_body]
+    pub fn update_deadline<BS: Blockstore>(&mut self, policy: &Policy, store: &BS, deadline_idx: u64, deadline: &Deadline) -> (r: anyhow::Result<()>) { unimplemented!() }
+}
+impl Deadline {
+    /// deadline_state.rs Deadline::terminate_sectors: marks sectors terminated in the deadline's partitions and returns the power removed; works on
+    /// the deadline value and the blockstore only — it has no access to the miner State
+    #[verifier::external_body]
+    pub fn terminate_sectors<BS: Blockstore>(&mut self, policy: &Policy, store: &BS, sectors: &Sectors<'_, BS>, epoch: ChainEpoch,
+            partition_sectors: &PartitionSectorMap, sector_size: SectorSize, quant: QuantSpec) -> (r: anyhow::Result<PowerPair>) { unimplemented!() }
+}
+/// deadlines.rs deadline_is_mutable: pure arithmetic on the policy and epochs
+#[verifier::external_body]
+pub fn deadline_is_mutable(policy: &Policy, proving_period_start: ChainEpoch, deadline_idx: u64, current_epoch: ChainEpoch) -> (r: bool) { unimplemented!() }
+impl State {
+    /// state.rs current_proving_period_start / quant_spec_for_deadline: `&self` getters (deadline arithmetic, under contract in units/C15)
+    #[verifier::external_body]
+    pub fn current_proving_period_start(&self, policy: &Policy, current_epoch: ChainEpoch) -> (r: ChainEpoch) { unimplemented!() }
+    #[verifier::external_body]
+    pub fn quant_spec_for_deadline(&self, policy: &Policy, deadline_idx: u64) -> (r: QuantSpec) { unimplemented!() }
+}
+
+// ======================= PreCommitSectorBatch2, whole method: per-sector validation and the queries to other actors are opaque =======================
+// None of these sees the miner State. The validation predicates return SOME verdict; the two queries append exactly one zero-value send each and,
+// like every send of the ghost runtime, leave the transaction log, the message and the epoch alone.
+#[verifier::external_body]
+pub fn can_pre_commit_seal_proof(policy: &Policy, proof: RegisteredSealProof) -> (r: bool) { unimplemented!() }
+#[verifier::external_body]
+pub fn is_sealed_sector(c: &Cid) -> (r: bool) { unimplemented!() }
+#[verifier::external_body]
+pub fn is_unsealed_sector(c: &Cid) -> (r: bool) { unimplemented!() }
+/// lib.rs validate_expiration: pure checks on epochs against the policy
+#[verifier::external_body]
+pub fn validate_expiration(policy: &Policy, curr_epoch: ChainEpoch, activation: ChainEpoch, expiration: ChainEpoch, seal_proof: RegisteredSealProof) -> (r: Result<(), ActorError>) { unimplemented!() }
+/// std `Option<ChainEpoch>::unwrap_or_default()`: the value, or 0
+pub fn vx_unwrap_or_default_epoch(o: Option<ChainEpoch>) -> (r: ChainEpoch) ensures r == (if o.is_some() { o->Some_0 } else { 0 }) { match o { Some(v) => v, None => 0 } }
+pub const CURRENT_TOTAL_POWER_METHOD_VX: u64 = 9;
+pub const VERIFY_DEALS_FOR_ACTIVATION_METHOD_VX: u64 = 5;
+/// ext.rs market::SectorDeals (request entry of VerifyDealsForActivation)
+pub struct SectorDeals { pub sector_number: SectorNumber, pub sector_type: RegisteredSealProof, pub sector_expiry: ChainEpoch, pub deal_ids: Vec<DealID> }
+/// lib.rs request_current_total_power: ONE zero-value send (CurrentTotalPower, method 9) to the power actor; Ok iff it succeeded and its answer decodes
+#[verifier::external_body]
+pub fn request_current_total_power(rt: &mut Rt) -> (r: Result<CurrentTotalPowerReturn, ActorError>)
+    requires !old(rt).in_tx@
+    ensures
+        rt_pushed(old(rt), final(rt)), rt_frame(old(rt), final(rt)),
+        final(rt).sends@.last().value == 0 && final(rt).sends@.last().to == STORAGE_POWER_ACTOR_ADDR && final(rt).sends@.last().method == CURRENT_TOTAL_POWER_METHOD_VX,
+        r.is_ok() ==> final(rt).sends@.last().ok,
+        rt_no_reentry(STORAGE_POWER_ACTOR_ADDR, CURRENT_TOTAL_POWER_METHOD_VX) ==> final(rt).state_id == old(rt).state_id && final(rt).balance == old(rt).balance,
+{ unimplemented!() }
+/// lib.rs verify_deals: no message when no sector carries deals, otherwise ONE zero-value send (VerifyDealsForActivation, method 5) to the market
+#[verifier::external_body]
+pub fn verify_deals(rt: &mut Rt, sectors: &Vec<SectorDeals>) -> (r: Result<VerifyDealsForActivationReturn, ActorError>)
+    requires !old(rt).in_tx@
+    ensures
+        rt_frame(old(rt), final(rt)), old(rt).sends@.len() <= final(rt).sends@.len() <= old(rt).sends@.len() + 1,
+        forall|i: int| 0 <= i < old(rt).sends@.len() ==> final(rt).sends@[i] == old(rt).sends@[i],
+        final(rt).sends@.len() == old(rt).sends@.len() ==> *final(rt) == *old(rt),
+        final(rt).sends@.len() == old(rt).sends@.len() + 1 ==> final(rt).sends@.last().value == 0 && final(rt).sends@.last().to == STORAGE_MARKET_ACTOR_ADDR
+            && final(rt).sends@.last().method == VERIFY_DEALS_FOR_ACTIVATION_METHOD_VX,
+        rt_no_reentry(STORAGE_MARKET_ACTOR_ADDR, VERIFY_DEALS_FOR_ACTIVATION_METHOD_VX) ==> final(rt).state_id == old(rt).state_id && final(rt).balance == old(rt).balance,
+{ unimplemented!() }
+/// deadline_info.rs DeadlineInfo + state.rs State::deadline_info (deadline arithmetic, under contract in units/C15): only `last()` is used here
+pub struct DeadlineInfo { pub close: ChainEpoch }
+impl DeadlineInfo {
+    #[verifier::external_body]
+    pub fn last(self) -> (r: ChainEpoch) { unimplemented!() }
+}
+impl State {
+    #[verifier::external_body]
+    pub fn deadline_info(&self, policy: &Policy, current_epoch: ChainEpoch) -> (r: DeadlineInfo) { unimplemented!() }
+}
+/// runtime serialize(&x, desc): opaque bytes
+#[verifier::external_body]
+pub fn serialize<T>(v: &T, desc: &str) -> (r: Result<RawBytes, ActorError>) ensures r.is_ok() ==> r->Ok_0.h == cbor_hash(*v) { unimplemented!() }
